@@ -112,6 +112,9 @@ def cases(shard, tier):
                 seconds += ['window', 'data', 'dtype']
             for second in seconds:
                 yield dict(shard, n=n, frm=f, to=t, user=user, itype=it, second=second)
+            if it is not None and user == 'none' and n >= 2:
+                # a first write is refused inside the frame's set-up (2-D index data with other values), then the real one
+                yield dict(shard, n=n, frm=f, to=t, user=user, itype=it, second='after-refused-2d-index')
             if user != 'none':
                 # the user's value assigned through the public setter after the frame was created
                 yield dict(shard, n=n, frm=f, to=t, user=user, itype=it, second='none', user_route='later')
@@ -249,10 +252,18 @@ def run_case(c):
             return None, f"raised:{type(e).__name__}: {e}"
         return open(path, 'rb').read(), 'ok'
 
+    if c['second'] == 'after-refused-2d-index':
+        import numpy as np
+        bad = {'INDEX': np.arange(9000, 9000 + 2 * n, dtype=np.float64).reshape(n, 2), 'VALUE': S.make_array(other)}
+        try:
+            b.df.write(path, output_chunk_size=2 ** 16, data=bad)
+            return Outcome('harness', [("C13:harness:2d-index-accepted", f"{c}")], True)
+        except Exception:  # noqa
+            pass
     data, st = write(arr, c['frm'], c['to'])
     exp_vals, exp_dtype, frm, to = vals, dtype, c['frm'], c['to']
-    tag = 'first'
-    if st == 'ok' and c['second'] != 'none':
+    tag = 'first' if c['second'] != 'after-refused-2d-index' else 'after-refused-write'
+    if st == 'ok' and c['second'] not in ('none', 'after-refused-2d-index'):
         tag = 'second-' + c['second']
         if c['second'] == 'window':
             frm, to = 1, 3
